@@ -310,7 +310,9 @@ func runC20(c *Ctx) {
 	if hl := c.MustFunc(pkgProxy + ":(*backendLoginSessionHandler).handleLoginPluginMessage"); hl != nil {
 		isCreate := callSuffix("velocity.CreateForwardingData")
 		var create *ssa.Call
-		for _, ci := range callsIn(hl, func(nm string, cc *ssa.CallCommon) bool { return strings.HasSuffix(nm, "velocity.CreateForwardingData") }) {
+		for _, ci := range callsIn(hl, func(nm string, cc *ssa.CallCommon) bool {
+			return strings.HasSuffix(nm, "velocity.CreateForwardingData")
+		}) {
 			create = ci.(*ssa.Call)
 		}
 		if create == nil {
